@@ -199,3 +199,13 @@ def single_return_term(ctx, fn, env0, rule):
     if len(terms) == 1:
         return terms.pop()
     return None
+
+
+def norm_conds(pr):
+    """[(condition text without leading not(...) wrappers, truth of that text on the path)]"""
+    out = []
+    for c, t, _ in pr.conds:
+        while c.startswith("not(") and c.endswith(")"):
+            c, t = c[4:-1], not t
+        out.append((c, t))
+    return out
